@@ -46,6 +46,8 @@ the subset can only make a theorem fail):
   `;`, numeric reference to 0 / surrogate / > 10FFFF / control / noncharacter, `-->` variants that
   are errors, end tag that does not match the current node, EOF with open elements or inside a tag;
 * U+000D (the newline-normalising preprocessing step is not modelled);
+  (the other input-stream errors — control-character / noncharacter-in-input-stream — are reported by the
+  standard but leave the code points unchanged, so they are not treated as leaving the subset)
 * named references other than `amp lt gt quot apos` (incl. every legacy name without `;`) and
   `&` followed by an ASCII alphanumeric that does not complete one of them;
 * `<!d…`, `<!D…`, `<![…` (DOCTYPE, CDATA), `<?`;
